@@ -11,6 +11,7 @@
     ensures
         r.m == size.0, r.n == size.1, r.colptr@.len() == size.1 + 1, r.rowval@.len() == nnz, r.nzval@.len() == nnz,
         r.colptr@[size.1 as int] == nnz, forall|c: int| 0 <= c < size.1 ==> #[trigger] r.colptr@[c] == 0,
+        forall|k: int| 0 <= k < nnz ==> #[trigger] r.rowval@[k] == 0, forall|k: int| 0 <= k < nnz ==> #[trigger] r.nzval@[k] == f_zero(),
 //@end
 
 //@fn file=src/algebra/csc/core.rs in="impl<T> CscMatrix<T>" name=nnz rules=R1 ret=r
